@@ -103,7 +103,8 @@ def tlc(workdir, module, cfg, workers=1, timeout=1800, extra=(), xss=True, heap=
         opts.append("-Xmx%s" % heap)
     if opts:
         env["JAVA_TOOL_OPTIONS"] = " ".join(opts)
-    meta = os.path.join(workdir, "meta.%d" % int(time.time() * 1000))
+    import uuid
+    meta = os.path.join(workdir, "meta." + uuid.uuid4().hex)
     cmd = ["tlc", "-workers", str(workers), "-metadir", meta, "-config", cfg] + list(extra) + [module]
     r = run(cmd, cwd=workdir, env=env, timeout=timeout)
     shutil.rmtree(meta, ignore_errors=True)
